@@ -29,8 +29,10 @@ package main
 // ctx.TxBytes, height, time, atomicity and ordering are those of a message.
 
 import (
+	"encoding/binary"
 	"encoding/hex"
 	"fmt"
+	"os"
 	"sort"
 	"strings"
 	"time"
@@ -93,19 +95,20 @@ type env struct {
 	names   map[string]string // bech32 -> name
 	t0      time.Time
 	off     sdkmath.Int
-	nextDt  int64 // ticks the next block is ahead of the last one
+	nextDt  int64             // ticks the next block is ahead of the last one
 	ctxName map[string]string // real ctx id (hex upper) -> "c<k>"
 	ctxReal map[string]string // "c<k>" -> real id
 	ctxMaps []struct {
 		m  chain.M
 		id string
 	}
-	reqReal map[string]string // abstract request id -> real id (hex)
-	fired   []firing
-	mods    []*modAction
-	lines   []line
-	last    chain.M
-	cfg     struct {
+	reqReal   map[string]string // abstract request id -> real id (hex)
+	predicted map[string]string // contexts to be created in the block being built
+	fired     []firing
+	mods      []*modAction
+	lines     []line
+	last      chain.M
+	cfg       struct {
 		init, taxNum, taxDen, slashNum, slashDen, maxTimeout, minMult, minDep, wait int64
 	}
 }
@@ -651,6 +654,9 @@ func (e *env) realCtx(name string) string {
 	if r, ok := e.ctxReal[name]; ok {
 		return r
 	}
+	if r, ok := e.predicted[name]; ok {
+		return r
+	}
 	return strings.Repeat("0", servicetypes.ContextIDLen)
 }
 
@@ -806,12 +812,20 @@ func (e *env) runBlock(pending []chain.M, nextDt int64) bool {
 	var txs []chain.Tx
 	e.mods = nil
 	e.fired = nil
+	// Contexts created earlier in this very block: their ids are tx hash ++
+	// per-block creation index, both known before execution (the hash from the
+	// deterministic signing, the index from the predicted results of the earlier
+	// creations), so later events of the block can name them.
+	e.predicted = map[string]string{}
+	seqs := map[string]uint64{}
+	created := 0
 	for _, ev := range pending {
 		if modEvents[chain.Str(ev, "name")] {
 			e.mods = append(e.mods, &modAction{ev: ev})
 			a := e.c.Accts[modSigner].Addr
 			txs = append(txs, chain.Tx{Signer: modSigner, Msgs: []sdk.Msg{
 				banktypes.NewMsgSend(a, a, sdk.NewCoins(sdk.NewInt64Coin(modDenom, int64(len(e.mods)))))}})
+			e.predict(ev, txs[len(txs)-1], seqs, &created)
 			continue
 		}
 		who := chain.Str(ev, "who")
@@ -819,6 +833,7 @@ func (e *env) runBlock(pending []chain.M, nextDt int64) bool {
 			who = e.users[0] // wrong signer: rejected by the ante handler
 		}
 		txs = append(txs, chain.Tx{Signer: who, Msgs: []sdk.Msg{e.msgOf(ev)}})
+		e.predict(ev, txs[len(txs)-1], seqs, &created)
 	}
 	dt := e.nextDt
 	e.nextDt = nextDt
@@ -842,6 +857,12 @@ func (e *env) runBlock(pending []chain.M, nextDt int64) bool {
 			ok, pan = a.ok, a.panic
 		}
 		ev["ok"], ev["panic"] = ok, pan
+		if !ok && os.Getenv("VERIF_DEBUG") != "" {
+			ev["log"] = r.Log
+			if modEvents[chain.Str(ev, "name")] {
+				ev["log"] = e.mods[mi-1].log
+			}
+		}
 		cbs, scbs := e.firingsOf(r.TxHash)
 		if ok {
 			ev["cbs"], ev["scbs"] = cbs, scbs
@@ -857,6 +878,28 @@ func (e *env) runBlock(pending []chain.M, nextDt int64) bool {
 	end["cbs"], end["scbs"] = e.firingsOf("block")
 	e.emit(end, res.EndState)
 	return true
+}
+
+// predict mirrors chain.RunBlock's signing of tx (same sequences, same bytes)
+// and, for a creation predicted to succeed, records the id the new context will get.
+func (e *env) predict(ev chain.M, tx chain.Tx, seqs map[string]uint64, created *int) {
+	for _, m := range tx.Msgs {
+		if vb, ok := m.(sdk.HasValidateBasic); ok && vb.ValidateBasic() != nil {
+			return // not delivered, consumes no sequence number
+		}
+	}
+	bz, err := e.c.BuildTx(tx, seqs)
+	if err != nil {
+		return
+	}
+	n := chain.Str(ev, "name")
+	if (n == "Call" || n == "ModCall") && chain.Bool(ev, "ok") {
+		idx := make([]byte, 8)
+		binary.BigEndian.PutUint64(idx, uint64(*created))
+		real := strings.ToUpper(hexSha(bz) + hex.EncodeToString(idx))
+		e.predicted[fmt.Sprintf("c%d", len(e.ctxName)+1+*created)] = real
+		*created++
+	}
 }
 
 // flush assigns ranks and writes the buffered lines.
